@@ -432,7 +432,7 @@ def cooccurence(f, direction, output=None, symmetric=True, distance=1):
         raise ValueError('mahotas.texture.cooccurence: cannot handle images of %s dimensions.' % len(f.shape))
 
     if output is None:
-        mf = f.max()
+        mf = int(f.max()) # a Python integer: f.max()+1 must not wrap around in f's dtype
         output = np.zeros((mf+1, mf+1), np.int32)
     else:
         assert np.min(output.shape) >= f.max(), 'mahotas.texture.cooccurence: output is not large enough'
